@@ -102,8 +102,9 @@ def Admissible (e0 : Emu) : LState → List HEv → Prop
 
 /-- The emulator built from the hierarchy is well-formed. -/
 theorem wf_init (threads : List (Int × Int × Nat)) (cpus : List (Nat × Int × Bool))
-    (enabled : List Nat) (lint : Bool) : WF (mkEmu threads cpus enabled lint) :=
-  wf_mkEmu threads cpus enabled lint
+    (enabled : List Nat) (lint : Bool) (extra : List ModelSpec := []) :
+    WF (mkEmu threads cpus enabled lint extra) :=
+  wf_mkEmu threads cpus enabled lint extra
 
 section
 variable (th mh : Emu → Nat → Nat → Nat → List Nat → Except Err Emu)
@@ -502,7 +503,7 @@ def xPayload (i : Nat) : List Nat := [i, 0, 0, 0, 255, 255, 255, 255, 0, 0, 0, 0
 def demoHist : List HEv :=
   [(0, 120, xPayload 0), (1, 120, xPayload 1), (0, 112, []), (1, 99, []), (1, 101, []), (0, 114, []), (0, 101, [])]
 
-example : WF demo := wf_init _ _ _ _
+example : WF demo := wf_init _ _ _ _ _
 example : demo.enabled.contains 79 = true := by decide
 example : (demo.lint && lintOpen demo) = false := by decide
 
